@@ -68,3 +68,22 @@ func VerifDumpBC(bc *BlockCache) string { return verifMap(bc.cache) }
 
 // VerifDumpTC renders a transaction cache's uncommitted entries.
 func VerifDumpTC(tc *TransactionCache) string { return verifMap(tc.cache) }
+
+// VerifView is the abstract state of one key for model conformance: whether the key has a per-block
+// map, the entries of that map and all ancestor links.
+func VerifView(sc *StateCache, key string) (known bool, entries map[string]string, links map[string]string) {
+	entries, links = map[string]string{}, map[string]string{}
+	if bvsi, ok := sc.cache.Peek(key); ok {
+		known = true
+		bvs := bvsi.(*lru.Cache)
+		for _, b := range bvs.Keys() {
+			v, _ := bvs.Peek(b)
+			entries[fmt.Sprint(b)] = verifVN(v.(valueNode))
+		}
+	}
+	for _, b := range sc.hashCache.Keys() {
+		p, _ := sc.hashCache.Peek(b)
+		links[fmt.Sprint(b)] = fmt.Sprint(p)
+	}
+	return
+}
